@@ -75,6 +75,7 @@ type Engine struct {
 	events      []Event
 	notes       map[string]bool
 	nchan       int
+	narr        int
 
 	// threads
 	threads []*Thread
